@@ -140,17 +140,25 @@ pub fn exec(case: &Value) -> Vec<Value> {
             let iw = prob(&case["iw"]);
             let dw = prob(&case["dw"]);
             let seed = case.get("seed").and_then(|x| x.as_u64()).unwrap_or(0);
-            let run = |text: &str| -> Result<(String, String), String> {
+            // `other`: the same seed in a different item context (another source file, marks set): the output is a
+            // function of (text, seed) only
+            let run_in = |text: &str, other: bool| -> Result<(String, String), String> {
                 let f = preprocessing(PreprocessingFnConfig::WhitespaceCorruption(Part::Input, iw, dw, g));
-                let info = TextDataInfo { seed, ..Default::default() };
+                let info = if other {
+                    TextDataInfo { seed, file_idx: 3, marks: [("lang".to_string(), "de".to_string())].into_iter().collect() }
+                } else {
+                    TextDataInfo { seed, ..Default::default() }
+                };
                 match guard(|| f(TrainData::new(text.to_string(), None), info)) {
                     Ok(Ok((d, _))) => Ok((d.verif_input().to_string(), d.verif_target().to_string())),
                     Ok(Err(e)) => Err(format!("err:{e}")),
                     Err(m) => Err(format!("panic:corrupt:{m}")),
                 }
             };
+            let run = |text: &str| run_in(text, false);
             let (out, tgt) = run(&text).unwrap_or_else(|m| { fail("corrupt", m); (String::new(), String::new()) });
             let (out2, _) = run(&text).unwrap_or_default();
+            let (out3, _) = run_in(&text, true).unwrap_or_default();
             // labels of the whitespace-correction task for (corrupted input, original target)
             let tok_cfg = TokenizerConfig {
                 tokenize: TokenizeConfig::Byte(ByteTokenizerConfig { use_graphemes: g, pad_to_multiple_of: None,
@@ -167,9 +175,15 @@ pub fn exec(case: &Value) -> Vec<Value> {
                 Ok(Err(_)) => json!({"ok": false, "labels": [], "ntok": 0}),
                 Err(m) => { fail("task", m); json!({"ok": false, "labels": [], "ntok": 0}) }
             };
+            // shape of a recorded finding: two characters of the text that are separated only by whitespace would form one
+            // grapheme cluster - or would be cut differently - if they stood next to each other (regional indicators, Hangul jamo, ...)
+            let fusable = g && {
+                let cl: Vec<&str> = clusters(&text, true).into_iter().filter(|c| !c.chars().all(char::is_whitespace)).collect();
+                cl.windows(2).any(|w| clusters(&format!("{}{}", w[0], w[1]), true) != vec![w[0], w[1]])
+            };
             let cls = |p: f64| if p <= 0.0 { "zero" } else if p >= 1.0 { "one" } else { "mid" };
-            json!({"kind": "corrupt", "g": g, "text": text, "tv": cp.view(&text, g), "ov": cp.view(&out, g),
-                   "out": out, "same_again": out == out2, "target_cps": cp.cps(&tgt), "text_cps": cp.cps(&text),
+            json!({"kind": "corrupt", "g": g, "fusable": fusable, "text": text, "tv": cp.view(&text, g), "ov": cp.view(&out, g),
+                   "out": out, "same_again": out == out2 && out == out3, "target_cps": cp.cps(&tgt), "text_cps": cp.cps(&text),
                    "iw": cls(iw), "dw": cls(dw), "seed": seed, "task": labels, "nbytes": out.len()})
         }
     };
